@@ -89,7 +89,7 @@ def step(rng, pool):
     nd = x.ndim
     op = str(rng.choice(["ew1", "ew2", "index", "reduce", "transpose", "reshape", "concat", "stack", "dot", "convert", "sort", "roll", "flip", "pad",
                          "bcast", "where", "astype", "triu", "diagonal", "expand", "squeeze", "round", "kron", "tensordot", "unique", "argmax", "nonzero", "dok_assign",
-                         "create", "create", "like", "diagonalize", "tril", "moveaxis", "take", "matmul", "clip", "isnan", "mean", "cumulative"]))
+                         "create", "create", "like", "einsum", "einsum", "diagonalize", "tril", "moveaxis", "take", "matmul", "clip", "isnan", "mean", "cumulative"]))
     coo = x.asformat("coo") if not isinstance(x, sparse.COO) else x
     if op == "dok_assign" and nd and x.size:
         # assigning a value that becomes the fill value only after the cast to the array's dtype must not leave a stored entry
@@ -123,6 +123,23 @@ def step(rng, pool):
             k = int(rng.integers(0, size + 1))
             return f"random({shp},nnz={k},format={fmt})", sparse.random(shp, nnz=k, format=fmt, random_state=int(rng.integers(1 << 30)))
         return f"asarray(dense,format={fmt})", sparse.asarray(x.todense(), format=fmt)
+    if op == "einsum" and 1 <= nd <= 3 and x.fill_value == 0:
+        # sums over removed indices that cancel, traces, transposes, products
+        letters = "ijk"[:nd]
+        keep = "".join(c for c in letters if rng.random() < 0.5)
+        if rng.random() < 0.5:
+            keep = keep[::-1]
+        which = int(rng.integers(3))
+        if which == 0:
+            sub = f"{letters}->{keep}"
+            r = sparse.einsum(sub, x)
+        elif which == 1:
+            sub = f"{letters},{letters}->{keep}"
+            r = sparse.einsum(sub, x, -x if rng.random() < 0.5 else x)
+        else:
+            sub = f"{letters},{letters[::-1]}->{keep}" if all(e == x.shape[0] for e in x.shape) else f"{letters}->{keep}"
+            r = sparse.einsum(sub, *([x, x] if "," in sub else [x]))
+        return f"einsum({sub})", (r if isinstance(r, sparse.SparseArray) else None)
     if op == "like":
         f = str(rng.choice(["zeros_like", "ones_like", "full_like", "empty_like"]))
         if f == "full_like":
